@@ -81,7 +81,7 @@ func panicParagraph(stderr string) string {
 	return strings.TrimSpace(strings.Join(keep, "\n"))
 }
 
-// Run builds all programs in one scratch module and runs them. The scratch directory is
+// Run builds all programs in one scratch module and runs them (timeout <= 0: build only). The scratch directory is
 // removed before returning.
 func Run(progs []Prog, timeout time.Duration) (map[string]Result, error) {
 	dir, err := os.MkdirTemp(scratchRoot(), "progrun-")
@@ -149,6 +149,10 @@ func Run(progs []Prog, timeout time.Duration) (map[string]Result, error) {
 				missing++
 			}
 			res[name] = Result{BuildErr: msg}
+			continue
+		}
+		if timeout <= 0 { // build only
+			res[name] = Result{}
 			continue
 		}
 		wg.Add(1)
